@@ -23,7 +23,8 @@ def key_for(act, field):
 def run(ctx):
     maxh, cfg = (5, "LedgerCommit_C01t.cfg") if ctx.thorough else (3, "LedgerCommit_C01.cfg")
     r = ctx.tlc("LedgerCommit_MC", cfg=cfg, workers=1, coverage=ctx.thorough)
-    paths, nsteps, ncrash, nfinal = [], 0, 0, 0
+    paths, nsteps, ncrash, nfinal, nruns = [], 0, 0, 0, 0
+    drift = []
     if r.status != "ok":
         ctx.infra("TLC did not verify %s: %s %s %s" % (cfg, r.status, r.violated, r.errors[:2]))
     else:
@@ -42,61 +43,81 @@ def run(ctx):
         paths, ncov = ctx.cover(edges, inits, max_len=80)
         ctx.log("cover: %d paths, %d steps, %d/%d edges" % (len(paths), sum(len(p["steps"]) for p in paths), ncov, len(edges)))
         binary = ctx.go_test_bin("core/store/ledgerstore", harness="c01_ledger", tags=("verif",), hide_own_tests=True)
-        if binary:
-            fin, fout = os.path.join(ctx.scratch, "replay.in.json"), os.path.join(ctx.scratch, "replay.out.ndjson")
-            vf.write_json(fin, {"maxh": maxh, "paths": [[s["act"] for s in p["steps"]] for p in paths]})
+        # block contents: every block a successful transfer; and mixes with empty blocks and blocks whose only
+        # transaction fails (empty write set) rotated by the seed.  Thorough: more mixes.
+        base = ["empty", "fail", "xfer"]
+        rot = ctx.seed % 3
+        mixes = [["xfer"] * maxh, [base[(i + rot) % 3] for i in range(maxh)]]
+        if ctx.thorough:
+            mixes += [[base[(i + rot + 1) % 3] for i in range(maxh)], [base[(i + rot + 2) % 3] for i in range(maxh)],
+                      ["fail"] * maxh, ["empty"] * maxh]
+        for mi, shapes in enumerate(mixes if binary else []):
+            fin, fout = os.path.join(ctx.scratch, "replay%d.in.json" % mi), os.path.join(ctx.scratch, "replay%d.out.ndjson" % mi)
+            vf.write_json(fin, {"maxh": maxh, "shapes": shapes, "paths": [[s["act"] for s in p["steps"]] for p in paths]})
             rc, out = ctx.run_bin(binary, "TestVerifLcReplay", env={"VERIF_IN": fin, "VERIF_OUT": fout}, timeout=3000)
             if rc != 0:
-                ctx.infra("replay harness failed rc=%s" % rc)
-            else:
-                finals = set()
-                for o in vf.read_ndjson(fout):
-                    p = paths[o["path"]]
-                    steps = p["steps"]
-                    rp = {"maxh": maxh, "path": [s["act"] for s in steps[:max(o["step"], 1)]] if o["name"] != "Final" else [s["act"] for s in steps]}
-                    crashes = [s["act"]["at"] for s in steps[:o["step"]] if s["act"]["name"] == "Crash"]
-                    ctxkey = "crash@" + "+".join(crashes) if crashes else "nocrash"
-                    if o["name"] == "Init":
-                        continue
-                    if o["name"] == "Final":
-                        nfinal += 1
-                        finals.add(o["path"])
-                        if not o["ok"]:
-                            ctx.violation("Final:%s" % ctxkey, o.get("err"), rp)
-                        continue
-                    if o["name"] in ("ReopenError", "AddBlockResult"):
-                        ctx.violation("%s:%s" % (o["name"], ctxkey), o.get("err"), rp)
-                        continue
-                    act, to = steps[o["step"] - 1]["act"], steps[o["step"] - 1]["to"]
-                    nsteps += 1
-                    if act["name"] == "Crash":
-                        ncrash += 1
-                        continue
-                    if o.get("err"):
-                        ctx.violation("%s:error:%s" % (act["name"], ctxkey), o["err"], rp)
-                        continue
-                    if act["name"] == "Reopen":
-                        if o["ok"] != act["ok"]:
-                            ctx.violation("Reopen:outcome:%s" % ctxkey, {"real_ok": o["ok"], "model_ok": act["ok"]}, rp)
-                        continue
-                    bad = None
-                    for f, path in PROJ:
-                        mv = to[path] if isinstance(path, str) else to[path[0]][path[1]]
-                        if o[f] != mv:
-                            bad = (f, {"real": o[f], "model": mv})
-                            break
-                    if bad is None and o["applied"] != model_applied(to, maxh):
-                        bad = ("applied", {"real": o["applied"], "model": model_applied(to, maxh)})
-                    if bad:
-                        ctx.violation("%s:%s:%s" % (act["name"], bad[0], ctxkey), bad[1], rp)
-                if len(finals) != len(paths):
-                    ctx.infra("harness produced final checks for %d of %d paths" % (len(finals), len(paths)))
+                ctx.infra("replay harness failed rc=%s (shapes %s)" % (rc, shapes))
+                continue
+            nruns += 1
+            finals = set()
+            for o in vf.read_ndjson(fout):
+                p = paths[o["path"]]
+                steps = p["steps"]
+                rp = {"maxh": maxh, "shapes": shapes, "path": [s["act"] for s in steps[:max(o["step"], 1)]] if o["name"] != "Final" else [s["act"] for s in steps]}
+                crashes = [s["act"]["at"] for s in steps[:o["step"]] if s["act"]["name"] == "Crash"]
+                ctxkey = "crash@" + "+".join(crashes) if crashes else "nocrash"
+                if o["name"] == "Init":
+                    continue
+                if o["name"] == "Final":
+                    nfinal += 1
+                    finals.add(o["path"])
+                    if not o["ok"]:
+                        ctx.violation("Final:%s" % ctxkey, {"shapes": shapes, "err": o.get("err")}, rp)
+                    continue
+                if o["name"] in ("ReopenError", "AddBlockResult"):
+                    ctx.violation("%s:%s" % (o["name"], ctxkey), {"shapes": shapes, "err": o.get("err")}, rp)
+                    continue
+                act, to = steps[o["step"] - 1]["act"], steps[o["step"] - 1]["to"]
+                nsteps += 1
+                if act["name"] == "Crash":
+                    ncrash += 1
+                    continue
+                if o.get("err"):
+                    if "hook" in o["err"] and "AddBlock:" not in o["err"]:
+                        # the commit steps of the real code no longer line up with the model's actions: that is a
+                        # binding problem (exit 2) unless the final equivalence check of the path fails as well
+                        drift.append("%s %s %s" % (act["name"], ctxkey, o["err"]))
+                    else:
+                        ctx.violation("%s:error:%s" % (act["name"], ctxkey), {"shapes": shapes, "err": o["err"]}, rp)
+                    continue
+                if act["name"] == "Reopen":
+                    if o["ok"] != act["ok"]:
+                        ctx.violation("Reopen:outcome:%s" % ctxkey, {"real_ok": o["ok"], "model_ok": act["ok"], "shapes": shapes}, rp)
+                    continue
+                bad = None
+                for f, path in PROJ:
+                    mv = to[path] if isinstance(path, str) else to[path[0]][path[1]]
+                    if o[f] != mv:
+                        bad = (f, {"real": o[f], "model": mv, "shapes": shapes})
+                        break
+                if bad is None:
+                    ma = model_applied(to, maxh)
+                    ma = [(-1 if shapes[i] != "xfer" else ma[i]) for i in range(maxh)]
+                    if o["applied"] != ma:
+                        bad = ("applied", {"real": o["applied"], "model": ma, "shapes": shapes})
+                if bad:
+                    ctx.violation("%s:%s:%s" % (act["name"], bad[0], ctxkey), bad[1], rp)
+            if len(finals) != len(paths):
+                ctx.infra("harness produced final checks for %d of %d paths" % (len(finals), len(paths)))
+        ctx.extra["shape_mixes"] = mixes
+    if drift and not ctx.violations:
+        ctx.infra("MODEL-DRIFT: %d steps where the hook events of the real code do not match the model's actions, e.g. %s" % (len(drift), drift[0]))
     if paths:
         longest = max(paths, key=lambda p: len(p["steps"]))
         ctx.samples.append({"replayed_path": [("%s@%s" % (s["act"]["name"], s["act"].get("at", s["act"].get("h", "")))) for s in longest["steps"][:30]]})
     ctx.finish("model_checking", {
         "states": ctx.stats["states"], "transitions": ctx.stats["transitions"],
-        "traces_validated_against_impl": len(paths), "replayed_steps": nsteps, "crash_images_taken": ncrash,
+        "traces_validated_against_impl": len(paths) * nruns, "block_shape_mixes": ctx.extra.get("shape_mixes"), "replayed_steps": nsteps, "crash_images_taken": ncrash,
         "final_equivalence_checks": nfinal, "constants": {"MaxH": maxh, "cfg": cfg}, "exhaustive": True,
     }, ["a crash is the on-disk image copied at a verifPoint hook: goleveldb batches are atomic and a process crash loses exactly the un-issued writes (power loss / torn LevelDB journals not modelled)",
         "blocks carry one native ONT transfer each; solo (single bookkeeper, DBFT header rule) test network"])
